@@ -20,9 +20,9 @@ def run(tier: str, seed: int) -> Report:
         "(histories consisting only of lookups of the empty cache are counted as trivial)."
     )
     rep.bounded_label = (
-        "bounded: %d base frames (<= 2 rows x <= 2 columns, 5 value domains) x all one-difference neighbours; store/get histories of length <= %d over an alphabet of %d "
+        "bounded: %d base frames (<= 2 rows x <= 2 columns, 5 value domains) x all one-difference neighbours; store/get histories of length <= %d%s over an alphabet of %d "
         "operations (2 keys x 2 results x mutation flags) x %d key pairs"
-        % (sz["base_frames"], sz["history_max_len"], sz["history_alphabet"], sz["key_variants"])
+        % (sz["base_frames"], 3, " (length 4 for the key pairs differing in the SQL text / one data value)" if tier == "thorough" else "", sz["history_alphabet"], sz["key_variants"])
     )
     rep.assumptions = [
         "'equal data tables' is pandas DataFrame.equals: same shape, labels, dtypes and values, null == null; frames that differ only in a column dtype are different tables",
